@@ -135,7 +135,21 @@ func (v sVal) equal(o sVal) bool {
 var (
 	sValMode int
 	sValSeed uint64
+	sNegMode int // mode 0 only: which numeric cell values are negative (SCase.NegMode)
 )
+
+// sNegCell: is the numeric value of this cell negative in the case being executed
+func sNegCell(r SRow) bool {
+	switch sNegMode {
+	case 1:
+		return r.S%2 == 1
+	case 2:
+		return true
+	case 3:
+		return r.T%3 == 0
+	}
+	return false
+}
 
 // cellValue: the value write w stores in field f of row r.  Integers stay well
 // inside +-2^53; in mode 0 floats are exactly representable.
@@ -149,9 +163,17 @@ func cellValue(w int, r SRow, f string) sVal {
 	cell := int64(r.M)*100000 + int64(r.S)*1000 + int64(r.T)
 	switch f {
 	case "fi":
-		return sVal{Typ: influxql.Integer, I: int64(w)*1000000 + cell, W: w}
+		v := int64(w)*1000000 + cell
+		if sNegCell(r) {
+			v = -v
+		}
+		return sVal{Typ: influxql.Integer, I: v, W: w}
 	case "ff":
-		return sVal{Typ: influxql.Float, F: float64(int64(w)*1000000+cell) / 8.0, W: w}
+		v := float64(int64(w)*1000000+cell) / 8.0
+		if sNegCell(r) {
+			v = -v
+		}
+		return sVal{Typ: influxql.Float, F: v, W: w}
 	case "fs":
 		v := fmt.Sprintf("w%d.c%d", w, cell)
 		if r.P > 0 {
@@ -381,9 +403,12 @@ func newSModel() *sModel {
 func attribute(v sVal) int {
 	switch v.Typ {
 	case influxql.Integer:
+		if v.I < 0 {
+			return int(-v.I / 1000000)
+		}
 		return int(v.I / 1000000)
 	case influxql.Float:
-		return int(int64(v.F*8) / 1000000)
+		return int(int64(math.Abs(v.F)*8) / 1000000)
 	case influxql.String:
 		var w, c int
 		if n, _ := fmt.Sscanf(v.S, "w%d.c%d", &w, &c); n == 2 {
